@@ -729,9 +729,19 @@ impl IndexManager {
     fn save_index(id: u8, index: &IndexFile, path: &Path) -> Result<()> {
         use cascette_crypto::jenkins::hashlittle;
 
-        let entry_size = (index.header.key_size
-            + index.header.location_size
-            + index.header.length_size) as usize;
+        // The header is kept as it was read from the file: add the field sizes
+        // as usize and bound the shift, as the loader does.
+        let entry_size = usize::from(index.header.key_size)
+            + usize::from(index.header.location_size)
+            + usize::from(index.header.length_size);
+        let segment_size = 1u64
+            .checked_shl(u32::from(index.header.segment_bits))
+            .ok_or_else(|| {
+                StorageError::Index(format!(
+                    "Invalid file offset bits: {}",
+                    index.header.segment_bits
+                ))
+            })?;
 
         // Build IndexHeaderV2 bytes
         let header_v2 = IndexHeaderV2 {
@@ -742,7 +752,7 @@ impl IndexManager {
             storage_offset_length: index.header.location_size,
             ekey_length: index.header.key_size,
             file_offset_bits: index.header.segment_bits,
-            segment_size: 1u64 << u64::from(index.header.segment_bits),
+            segment_size,
         };
 
         let mut header_bytes = Vec::new();
@@ -1223,6 +1233,30 @@ pub struct IndexStats {
 mod tests {
     use super::*;
     use std::io::Cursor;
+
+    #[tokio::test]
+    async fn test_save_after_loading_odd_header_does_not_panic() {
+        // The loader accepts any field sizes and offset bits and keeps the
+        // header for the next save, which used to add the sizes in u8 and to
+        // shift by the untrusted bit count
+        for (location_size, length_size, bits) in [(200u8, 100u8, 30u8), (5, 4, 64)] {
+            let dir = tempfile::tempdir().expect("tempdir");
+            let mut file = Vec::new();
+            file.extend_from_slice(&16u32.to_le_bytes()); // header block size
+            file.extend_from_slice(&0u32.to_le_bytes()); // header block hash
+            file.extend_from_slice(&7u16.to_le_bytes()); // version
+            file.extend_from_slice(&[0, 0, length_size, location_size, 9, bits]);
+            file.extend_from_slice(&(1u64 << 30).to_le_bytes()); // segment size
+            file.extend_from_slice(&[0u8; 8]); // padding
+            file.extend_from_slice(&[0u8; 8]); // empty entry block
+            std::fs::write(dir.path().join("0000000001.idx"), &file).expect("write idx");
+
+            let mut manager = IndexManager::new(dir.path());
+            manager.load_all().await.expect("load");
+            // must return (Ok or Err), not panic
+            let _ = manager.save_all();
+        }
+    }
 
     #[test]
     fn test_index_header_round_trip() {
